@@ -82,6 +82,13 @@ class LogTracer(Tracer):
         self.idx = idx
         self.log = log
 
+    # distinct tracer objects that compare equal (like dataclass tracers with the same settings)
+    def __eq__(self, other):
+        return isinstance(other, Tracer)
+
+    def __hash__(self):
+        return 1
+
     def on_request_begin(self, trace_context, request):
         self.log.append((self.idx, 'begin', trace_context, request, None))
 
@@ -90,6 +97,37 @@ class LogTracer(Tracer):
 
     def on_error(self, trace_context, request, error):
         self.log.append((self.idx, 'error', trace_context, request, error))
+
+
+class PartialTracer(Tracer):
+    """overrides begin / end only: failures must not be reported to it as an 'end'"""
+    def __init__(self, idx, log):
+        self.idx = idx
+        self.log = log
+
+    def on_request_begin(self, trace_context, request):
+        self.log.append((self.idx, 'begin', trace_context, request, None))
+
+    def on_request_end(self, trace_context, request, response):
+        self.log.append((self.idx, 'end', trace_context, request, response))
+
+
+class ChainTracer(LogTracer):
+    """logs and chains to the base class implementation of every hook"""
+    def on_request_begin(self, trace_context, request):
+        super().on_request_begin(trace_context, request)
+        Tracer.on_request_begin(self, trace_context, request)
+
+    def on_request_end(self, trace_context, request, response):
+        super().on_request_end(trace_context, request, response)
+        Tracer.on_request_end(self, trace_context, request, response)
+
+    def on_error(self, trace_context, request, error):
+        super().on_error(trace_context, request, error)
+        Tracer.on_error(self, trace_context, request, error)
+
+
+TRACER_KINDS = {'full': LogTracer, 'partial': PartialTracer, 'chain': ChainTracer}
 
 
 def request_ids(kind):
@@ -106,6 +144,8 @@ def outcome_menu(cfg):
             menu += ['level_listed', 'level_listed2', 'level_unlisted']
         else:
             menu += ['code_listed', 'code_listed2', 'code_unlisted']
+    if notif:
+        menu += ['ok_empty']          # the transport answers a notification with an empty body ('')
     menu += ['exc_listed', 'exc_sub', 'exc_listed2', 'exc_unlisted']
     if cfg.get('c19'):
         if not notif:
@@ -126,6 +166,8 @@ def body_for(cfg, name, k):
 
     def err(code):
         return {'code': code, 'message': 'attempt %d' % k, 'data': {'attempt': k}}
+    if name == 'ok_empty':
+        return ''
     if name == 'ok':
         if not ids:
             return None
@@ -182,7 +224,8 @@ def execute(cfg, env, horizon=12):
         return b
 
     tlog = []
-    tracers = [LogTracer(i, tlog) for i in range(cfg.get('tracers', 0))]
+    tk = cfg.get('tracer_kinds') or ['full'] * cfg.get('tracers', 0)
+    tracers = [TRACER_KINDS[k](i, tlog) for i, k in enumerate(tk)]
     kw = {}
     if cfg.get('client_strategy') is not None:
         kw['retry_strategy'] = make_strategy(cfg['client_strategy'])
@@ -231,10 +274,20 @@ def execute(cfg, env, horizon=12):
 
     loop = None
     try:
-        r = thunk()
-        if cfg['kind'] == 'async':
-            loop = VLoop()
-            r = loop.run(r)
+        if cfg.get('in_except'):
+            # the call is made while the caller is handling another, unrelated exception
+            try:
+                raise KeyError('unrelated outer exception')
+            except KeyError:
+                r = thunk()
+                if cfg['kind'] == 'async':
+                    loop = VLoop()
+                    r = loop.run(r)
+        else:
+            r = thunk()
+            if cfg['kind'] == 'async':
+                loop = VLoop()
+                r = loop.run(r)
         outcome = ('ok', r)
     except BaseException as e:   # noqa
         outcome = ('exc', e)
